@@ -13,6 +13,7 @@ CELL-*         conversions, constants and delegation of the four CellType impls.
 from common import *
 from rusteval import *
 from iolim import parents
+import pm
 
 IR = "src/ir.rs"
 INPLACE = "src/exec/inplace.rs"
@@ -324,7 +325,8 @@ def run_parse_rules(res, ast):
                       f"{INPLACE}|execute_in|default", where(INPLACE, m, "execute_in"), "the default arm must be empty")
             sc = strip_paren(m["expr"])
             scn = path_name(sc)
-            okb = scn is not None and src_bytes and inits.get(scn) == f"{src_bytes[0]}[pc]"
+            pcs_ = [b_["__v_pc"] for b_ in (pm.match_expr(l_["cond"], "__v_pc < __v_b.len()", {"__v_b": src_bytes[0]} if src_bytes else {}) for l_ in walk_t(body, "While")) if b_]
+            okb = scn is not None and src_bytes and pcs_ and inits.get(scn) == f"{src_bytes[0]}[{pcs_[0]}]"
             res.check(okb, "COMMENT-INERT", f"{INPLACE}|execute_in|scrutinee", where(INPLACE, m, "execute_in"),
                       f"the dispatched value must be the raw byte `{src_bytes[0] if src_bytes else 'code_bytes'}[pc]` (no cast or decoding); found `{inits.get(scn)}`")
         # no source text can make the interpreter panic: indices are tested, no unwrap/expect/panicking macro
@@ -347,13 +349,17 @@ class MemA:
 
 
 class CmdInterp(Interp):
+    cxt_name = "cxt"
+
     def __init__(self):
         super().__init__()
         self.ev = []
 
     def eval(self, e, env):
-        if e["t"] == "PathExpr" and e["path"]["name"] in ("cxt", "self"):
-            return e["path"]["name"]
+        if e["t"] == "PathExpr" and e["path"]["name"] == self.cxt_name:
+            return "cxt"
+        if e["t"] == "PathExpr" and e["path"]["name"] == "self":
+            return "self"
         return super().eval(e, env)
 
     def field(self, base, member, node):
@@ -428,6 +434,9 @@ def run_cmd_table(res, ast):
         res.bad("CMD-TABLE", f"{INPLACE}|execute_in|match", where(INPLACE, f["node"], "execute_in"), "byte dispatch not found")
         return
     arms = {chr(a["pat"]["lit"]["value"]): a for a in ms[0]["arms"] if a["pat"]["t"] == "PLit"}
+    # the context parameter, by position (the only non-receiver parameter of execute_in)
+    args_ = [p_["pat"]["name"] for p_ in f["node"]["sig"]["inputs"] if p_["t"] == "Arg" and p_["pat"]["t"] == "PIdent"]
+    CmdInterp.cxt_name = args_[0] if len(args_) == 1 else "cxt"
     cell = Poly.var("cell")
     want = {
         "<": [("mov", -1)], ">": [("mov", 1)],
